@@ -250,6 +250,16 @@ Definition spec (x : predef) : option (bytes * list meaning) :=
   | PSendChannelMessage ch msg => Some (b "sendmessage", [MString ch; MString msg])
   end.
 
+(* the command words of the reference the library's predefined commands use *)
+Definition documented_words : list bytes := map b [
+  "addid"; "albumart"; "binarylimit"; "channels"; "clear"; "consume"; "count"; "crossfade"; "currentsong";
+  "delete"; "deleteid"; "find"; "list"; "listallinfo"; "listplaylistinfo"; "listplaylists"; "load"; "move";
+  "moveid"; "next"; "pause"; "ping"; "play"; "playid"; "playlistadd"; "playlistclear"; "playlistdelete";
+  "playlistid"; "playlistinfo"; "playlistmove"; "previous"; "random"; "readmessages"; "readpicture"; "rename";
+  "repeat"; "replay_gain_mode"; "replay_gain_status"; "rescan"; "rm"; "save"; "seek"; "seekcur"; "seekid";
+  "sendmessage"; "setvol"; "shuffle"; "single"; "stats"; "status"; "sticker"; "stop"; "subscribe"; "tagtypes";
+  "unsubscribe"; "update" ]%string.
+
 (* ---------- judging an observation ---------- *)
 
 (* bytes no request line can carry (LF ends the line, NUL ends MPD's C string): the library
